@@ -380,6 +380,7 @@ def obligations(tier):
     obls += borrow("C13", ["envelope_lines", "bouncexf"] + ([] if quick else ["dotqmail_loop"]), tier)
     obls += borrow("C07", ["received_safe"], tier)
     obls += borrow("C17", ["addrlist_forms"], tier)
+    obls += borrow("C18", ["spawn_docmd", "spawn_main"] + ([] if quick else ["spawn_getcmd"]), tier)
     if not quick:
         obls += borrow("C03", ["todo_do"], tier)
     return obls
